@@ -39,6 +39,8 @@ type Case struct {
 	Value    string `json:"value"`
 	Entry    string `json:"entry"` // against | validator | recycling
 	Continue bool   `json:"continue_on_errors,omitempty"`
+	// Programmatic: the parsed schema is put in the form a schema assembled in Go code has (see unsetAllows)
+	Programmatic bool `json:"programmatic,omitempty"`
 }
 
 func genCase(t *rapid.T) Case {
@@ -53,7 +55,8 @@ func genCase(t *rapid.T) Case {
 	}
 	switch c.Kind {
 	case "schema":
-		o := gen.SchemaOpts{MaxDepth: 3, Formats: reg.Names, Defaults: true, ObjectBias: rapid.Bool().Draw(t, "objbias")}
+		// expressions that do not compile are beyond C01's domain, not beyond the statement ("never modifies a schema that contains no references")
+		o := gen.SchemaOpts{MaxDepth: 3, Formats: reg.Names, Defaults: true, ObjectBias: rapid.Bool().Draw(t, "objbias"), BadPatterns: rapid.Bool().Draw(t, "badpatterns")}
 		if rapid.IntRange(0, 3).Draw(t, "withref") > 0 {
 			o.NoRef = true
 		}
@@ -61,6 +64,7 @@ func genCase(t *rapid.T) Case {
 		c.Def = gen.Text(doc)
 		c.Value = gen.Text(gen.InstanceFor(t, doc, 14))
 		c.Entry = rapid.SampledFrom([]string{"against", "validator", "recycling"}).Draw(t, "entry")
+		c.Programmatic = gen.UniformIndex(t, 4, "programmatic") == 0
 	case "param", "header":
 		d := gen.SimpleDef(t, 3)
 		if c.Kind == "param" {
@@ -153,6 +157,13 @@ func checkSchema(c Case) (out ev.Outcome) {
 	if err1 != nil || err2 != nil {
 		return ev.Failf("harness: schema does not parse: %v %v", err1, err2)
 	}
+	if c.Programmatic {
+		// the form a schema assembled in Go code often has: additionalProperties / additionalItems given as a schema
+		// with the Allows flag left unset (the JSON decoder always sets it)
+		unsetAllows(used)
+		unsetAllows(pristine)
+		out.Classes = append(out.Classes, "schema-assembled-in-code")
+	}
 	if !reflect.DeepEqual(used, pristine) {
 		return ev.Failf("harness: two parses of the same schema text differ")
 	}
@@ -194,6 +205,46 @@ func checkSchema(c Case) (out ev.Outcome) {
 	inst, _ := refmodel.Decode([]byte(c.Value))
 	out.Nontrivial = hasContainer(inst) && schemaRich(raw)
 	return out
+}
+
+// unsetAllows clears SchemaOrBool.Allows wherever a schema is given, at every depth.
+func unsetAllows(s *spec.Schema) {
+	if s == nil {
+		return
+	}
+	for _, sob := range []*spec.SchemaOrBool{s.AdditionalProperties, s.AdditionalItems} {
+		if sob != nil && sob.Schema != nil {
+			sob.Allows = false
+			unsetAllows(sob.Schema)
+		}
+	}
+	inMap := func(m map[string]spec.Schema) {
+		for k, v := range m {
+			unsetAllows(&v)
+			m[k] = v
+		}
+	}
+	inMap(s.Properties)
+	inMap(s.PatternProperties)
+	inMap(s.Definitions)
+	for _, l := range [][]spec.Schema{s.AllOf, s.AnyOf, s.OneOf} {
+		for i := range l {
+			unsetAllows(&l[i])
+		}
+	}
+	unsetAllows(s.Not)
+	if s.Items != nil {
+		unsetAllows(s.Items.Schema)
+		for i := range s.Items.Schemas {
+			unsetAllows(&s.Items.Schemas[i])
+		}
+	}
+	for k, d := range s.Dependencies {
+		if d.Schema != nil {
+			unsetAllows(d.Schema)
+			s.Dependencies[k] = d
+		}
+	}
 }
 
 func checkSimple(c Case) (out ev.Outcome) {
